@@ -317,6 +317,7 @@ type CallSite struct {
 	InDefer bool
 	InGo    bool
 	InLit   *ast.FuncLit
+	Table   bool // the callee is one of the function values of a dispatch table the called variable was read from
 }
 
 // Callee resolves the function object called by call (nil for builtins, conversions and dynamic function values).
@@ -394,6 +395,12 @@ func (w *World) Calls(f *FuncInfo) []*CallSite {
 				st, cal, ifc := w.Resolve(f.Pkg.TypesInfo, x)
 				if st != nil {
 					out = append(out, &CallSite{Caller: f, Call: x, Static: st, Callees: cal, Iface: ifc, InDefer: inDefer, InGo: inGo, InLit: lit})
+				} else {
+					// a function value taken out of a dispatch table (builder := table[key]; builder(..)): one call
+					// site per function the table holds
+					for _, t := range w.TableTargets(f, x) {
+						out = append(out, &CallSite{Caller: f, Call: x, Static: t, Callees: []*types.Func{t}, Table: true, InDefer: inDefer, InGo: inGo, InLit: lit})
+					}
 				}
 			}
 			return true
@@ -401,6 +408,124 @@ func (w *World) Calls(f *FuncInfo) []*CallSite {
 	}
 	visit(f.Decl.Body, false, false, nil)
 	w.calls[f] = out
+	return out
+}
+
+// TableTargets: call is `v(..)` (or `table[k](..)`) where v was read from a map / slice / array whose composite
+// literal (of a package-level variable that is never reassigned, or of a local) holds functions by name.
+func (w *World) TableTargets(f *FuncInfo, call *ast.CallExpr) []*types.Func {
+	info := f.Pkg.TypesInfo
+	fun := ast.Unparen(call.Fun)
+	var ix *ast.IndexExpr
+	switch x := fun.(type) {
+	case *ast.IndexExpr:
+		ix = x
+	case *ast.Ident:
+		v, ok := info.Uses[x].(*types.Var)
+		if !ok || v.IsField() || v.Pkg() == nil || v.Parent() == v.Pkg().Scope() {
+			return nil
+		}
+		// single definition in f: v := T[k]  /  v, ok := T[k]  (also as the init of an if)
+		n := 0
+		ast.Inspect(f.Decl.Body, func(m ast.Node) bool {
+			as, ok := m.(*ast.AssignStmt)
+			if !ok {
+				return true
+			}
+			for _, l := range as.Lhs {
+				if id, ok := l.(*ast.Ident); ok && (info.Defs[id] == types.Object(v) || info.Uses[id] == types.Object(v)) {
+					n++
+					if len(as.Rhs) == 1 {
+						if e, ok := ast.Unparen(as.Rhs[0]).(*ast.IndexExpr); ok && l == as.Lhs[0] {
+							ix = e
+						}
+					}
+				}
+			}
+			return true
+		})
+		if n != 1 {
+			return nil
+		}
+	}
+	if ix == nil {
+		return nil
+	}
+	var lit *ast.CompositeLit
+	litInfo := info
+	switch t := ast.Unparen(ix.X).(type) {
+	case *ast.CompositeLit:
+		lit = t
+	case *ast.Ident, *ast.SelectorExpr:
+		var tv *types.Var
+		if id, ok := t.(*ast.Ident); ok {
+			tv, _ = info.Uses[id].(*types.Var)
+		} else {
+			tv, _ = info.Uses[t.(*ast.SelectorExpr).Sel].(*types.Var)
+		}
+		if tv == nil || tv.Pkg() == nil || tv.Parent() != tv.Pkg().Scope() {
+			return nil
+		}
+		for _, p := range w.ByPath {
+			if p.Types != tv.Pkg() {
+				continue
+			}
+			// initialised by a literal and never assigned anywhere in its package
+			assigned := false
+			for _, file := range p.Syntax {
+				ast.Inspect(file, func(m ast.Node) bool {
+					switch y := m.(type) {
+					case *ast.AssignStmt:
+						for _, l := range y.Lhs {
+							root := ast.Unparen(l)
+							for {
+								if e, ok := root.(*ast.IndexExpr); ok {
+									root = ast.Unparen(e.X)
+									continue
+								}
+								break
+							}
+							if id, ok := root.(*ast.Ident); ok && p.TypesInfo.Uses[id] == types.Object(tv) {
+								assigned = true
+							}
+						}
+					case *ast.ValueSpec:
+						for i, nm := range y.Names {
+							if p.TypesInfo.Defs[nm] == types.Object(tv) && i < len(y.Values) {
+								if cl, ok := ast.Unparen(y.Values[i]).(*ast.CompositeLit); ok {
+									lit, litInfo = cl, p.TypesInfo
+								}
+							}
+						}
+					}
+					return true
+				})
+			}
+			if assigned {
+				return nil
+			}
+		}
+	}
+	if lit == nil {
+		return nil
+	}
+	var out []*types.Func
+	for _, el := range lit.Elts {
+		val := el
+		if kv, ok := el.(*ast.KeyValueExpr); ok {
+			val = kv.Value
+		}
+		switch y := ast.Unparen(val).(type) {
+		case *ast.Ident:
+			if fn, ok := litInfo.Uses[y].(*types.Func); ok {
+				out = append(out, fn)
+			}
+		case *ast.SelectorExpr:
+			if fn, ok := litInfo.Uses[y.Sel].(*types.Func); ok {
+				out = append(out, fn)
+			}
+		}
+	}
 	return out
 }
 
